@@ -272,29 +272,56 @@ def run(ck):
                       "product-formula error bounds for non-commuting terms and convergence of orders >= 4 are checked numerically only",
                       "fermion_to_qubit_mapping is the subject of C03; here its output is an input of the model",
                       "exact streams: coefficients on the (dyadic) pi/16 grid and designated edge values; float stream: uniform reals"]
+    # 1. regenerate; a part of the source that is no longer recognised is REPORTED and replaced by its last-known-good
+    #    constants so that every other leg of the check still runs (never stop at "model != code")
+    tabs, tab_src, tab_errors = pauliexp_tables.extract_with_fallback(REPO)
+    ck.notes["tables_source"] = tab_src
+    for msg in tab_errors:
+        ck.violation("C06/translator", "translator no longer recognises ansatz_utils.py: %s (the check continues with the last-known-good "
+                     "constants for that part; the theorems then do not speak about the current source)" % msg,
+                     {"kind": "translator", "error": msg}, found_input=False)
+    ck.write_gen("PauliExpTables", pauliexp_tables.emit(tabs))
+    # 2. proofs (a broken step is reported, the search goes on)
     try:
-        tabs = pauliexp_tables.extract(REPO)
-        ck.write_gen("PauliExpTables", pauliexp_tables.emit(tabs))
-    except TranslateError as e:
-        ck.violation("C06/translator", "translator no longer recognises ansatz_utils.py: %s" % e, {"kind": "translator", "error": str(e)}, found_input=False)
-        return
-    res = ck.prove(timeout=1500)
-    if not res.ok:
-        ck.proof_violation(res)
+        res = ck.prove(timeout=1500)
+        if not res.ok and str(res.failed).startswith("coqchk("):
+            # coqchk -o lists the axioms DECLARED in the whole loaded context.  Coq's Reals library (loaded by the shared
+            # Num/CReal.v) declares Classical_Prop.classic, so it appears there for every file stated over CRealS although
+            # no C06 theorem depends on it (Print Assumptions of each theorem, checked above, is the per-theorem answer).
+            info = (ck.notes.get("coqchk") or [{}])[-1]
+            std = {"functional_extensionality_dep", "sig_not_dec", "sig_forall_dec"}
+            extra = [a for a in info.get("axioms", []) if a.split(".")[-1] not in std]
+            if info.get("exit") == 0 and not info.get("flags") and extra == ["Coq.Logic.Classical_Prop.classic"] \
+                    and res.theorems and all(t["status"] == "proved" for t in res.theorems):
+                res.ok, res.failed = True, None
+                ck.notes["coqchk_note"] = ("coqchk accepted C06.vo and its dependencies (exit 0, no type-in-type / unsafe fixpoint / assumed positivity); its "
+                                           "context summary lists Classical_Prop.classic, which Coq's Reals library declares; no C06 theorem uses it "
+                                           "(Print Assumptions of all %d theorems)" % len(res.theorems))
+        if not res.ok:
+            ck.proof_violation(res)
+    except Exception as e:
+        ck.violation("C06/proof/build", "the proof step could not be run: %r" % e, {"kind": "proof", "error": repr(e)}, found_input=False)
     try:
         import tangelo  # noqa
         from tangelo.toolboxes.ansatz_generator import ansatz_utils  # noqa
     except Exception as e:
-        ck.violation("C06/import", "tangelo cannot be imported: %r" % e, {"kind": "import"}, found_input=False)
+        ck.violation("C06/import", "tangelo cannot be imported: %r" % e, {"kind": "import", "error": repr(e)}, found_input=False)
         return
     pre = preamble(tabs["threshold_exp10"])
     import time as _time
+    import traceback as _tb
     secs = {}
-    for name, fn in [("known_defect", lambda: known_defect(ck)), ("exp_word", lambda: stream_exp_word(ck, pre)),
-                     ("exp_word_float", lambda: stream_exp_word_float(ck)), ("time_evolution", lambda: stream_time_evolution(ck, pre)),
-                     ("suzuki", lambda: stream_suzuki(ck, pre)), ("oracle", lambda: stream_oracle(ck)), ("fermion", lambda: stream_fermion(ck, pre))]:
+    # 3./4. every stream under its own guard: implementation-only oracles first (they need neither tables nor model)
+    for name, fn in [("known_defect", lambda: known_defect(ck)), ("evolution_grid", lambda: stream_grid(ck)),
+                     ("exp_word_float", lambda: stream_exp_word_float(ck)), ("oracle", lambda: stream_oracle(ck)),
+                     ("exp_word", lambda: stream_exp_word(ck, pre)), ("time_evolution", lambda: stream_time_evolution(ck, pre)),
+                     ("suzuki", lambda: stream_suzuki(ck, pre)), ("fermion", lambda: stream_fermion(ck, pre))]:
         t0 = _time.time()
-        fn()
+        try:
+            fn()
+        except Exception as e:
+            ck.violation("C06/stream-crash/%s" % name, "stream %s could not complete: %r" % (name, e),
+                         {"kind": "crash", "stream": name, "traceback": _tb.format_exc()[-2500:]}, found_input=False)
         secs[name] = round(_time.time() - t0, 1)
     ck.notes["stream_seconds"] = secs
     ck.notes["partial"] = ["product-formula error bounds (first / second order) and the decrease of the error with the number of steps for orders 4, 6 "
@@ -336,6 +363,109 @@ def known_defect(ck):
                          {"kind": "identity_multictrl", "control": control})
 
 
+# ------------------------------------------------------------------------------------------ systematic evolution grid
+def ctrl_list(control):
+    return [] if control is None else ([control] if isinstance(control, int) else list(control))
+
+
+def grid_case(kind, terms, time, n, order, control, mapping=None):
+    """Implementation-only oracle.  kind 'qubit': terms = [(word, c)];  kind 'fermion': terms = [(fermion term, c)].
+    time: scalar or list of per-term times (same order).  Returns (exception or None, deviation of circuit*phase from the
+    controlled exp(-i sum_k t_k c_k H_k), H_k the (mapped) term)."""
+    from tangelo.toolboxes.ansatz_generator.ansatz_utils import trotterize
+    tk = list(time) if isinstance(time, (list, tuple)) else [time] * len(terms)
+    cs = ctrl_list(control)
+    if kind == "qubit":
+        op = qubit_op(terms)
+        targ = {tuple(w): t for (w, _), t in zip(terms, tk)} if isinstance(time, (list, tuple)) else time
+        kw = {}
+        ref_terms = [(w, c * t) for (w, c), t in zip(terms, tk)]
+    else:
+        from tangelo.toolboxes.operators import FermionOperator
+        from tangelo.toolboxes.qubit_mappings.mapping_transform import fermion_to_qubit_mapping
+        op = FermionOperator()
+        for ft, c in terms:
+            op += FermionOperator(ft, c)
+        targ = {ft: t for (ft, _), t in zip(terms, tk)} if isinstance(time, (list, tuple)) else time
+        opts = {"qubit_mapping": mapping, "up_then_down": False, "n_spinorbitals": 4}
+        if mapping == "scbk":
+            opts["n_electrons"] = 2
+        kw = {"mapping_options": opts}
+        ref_terms = []
+        for (ft, c), t in zip(terms, tk):      # each term mapped on its own, its time applied here: independent of trotterize's scaling
+            q = fermion_to_qubit_mapping(FermionOperator(ft, c), mapping, n_spinorbitals=4, n_electrons=opts.get("n_electrons"), up_then_down=False)
+            ref_terms += [(list(k), np.real(v) * t) for k, v in q.terms.items()]
+    try:
+        circ, phase = trotterize(op, time=targ, n_trotter_steps=n, trotter_order=order, control=control, return_phase=True, **kw)
+    except Exception as e:
+        return e, None
+    nq = max([q for w, _ in ref_terms for q, _ in w] + cs + [g_q for g in circ._gates for g_q in (list(g.target) + list(g.control or []))] + [0]) + 1
+    H = op_matrix(ref_terms, nq)
+    U = NS.unitary(NS.gates_of(circ), nq) * phase
+    return None, snorm(U - controlled(expm_h(H, 1.0), cs, nq))
+
+
+def stream_grid(ck):
+    """{qubit, fermionic operator} x {scalar time, per-term dictionary} x n_trotter_steps 1,2,3 x order 1,2 x control lists of
+    length 0..3 (with and without qubit 0), COMMUTING operators that contain an identity term: circuit * phase must equal the
+    controlled exp(-i sum t_k c_k H_k) to 1e-9."""
+    rng = ck.rng
+    quick = ck.tier == "quick"
+    ck.stream("evolution-grid", "systematic grid {QubitOperator, FermionOperator (jw, bk, scbk, jkmn)} x {scalar time, per-term time dictionary with distinct times} x "
+              "n_trotter_steps {1,2,3} x order {1,2} x control lists of length 0,1,2,3 (not containing / containing qubit 0), commuting operators WITH an identity "
+              "term, real coefficients and times: ||circuit*phase - ctrl(expm(-i sum_k t_k c_k H_k))||_2 <= 1e-9; a raising call is a violation carrying the case "
+              "(several controls including qubit 0 + identity term: the recorded finding)")
+    q_controls = [None, 4, [4], [4, 5], [5, 4, 6], [0], [0, 4], [4, 0], [0, 4, 5]]
+    f_controls = [None, [4], [5, 4], [4, 5, 6]]
+    mappings = ["jw", "bk", "scbk", "jkmn"]
+    reps = 1 if quick else 4
+    combo = 0
+    for kind in ("qubit", "fermion"):
+        for dict_time in (False, True):
+            for n in (1, 2, 3):
+                for order in (1, 2):
+                    combo += 1
+                    ctrls = q_controls if kind == "qubit" else f_controls
+                    for control in ctrls:
+                        for _ in range(reps):
+                            if kind == "qubit":
+                                # commuting family on qubits 1..3 (qubit 0 is left free so that it can be a control), identity term always present
+                                fam = rng.choice([[[(1, "Z")], [(2, "Z"), (3, "Z")], [(1, "Z"), (3, "Z")]],
+                                                  [[(1, "X"), (2, "X")], [(1, "Y"), (2, "Y")], [(1, "Z"), (2, "Z")], [(3, "X")]],
+                                                  [[(1, "X"), (2, "Y"), (3, "Z")], [(1, "Y"), (2, "X")], [(3, "Z")]]])
+                                words = [[]] + rng.sample(fam, rng.randint(1, len(fam)))
+                                rng.shuffle(words)
+                                terms = [(w, rng.uniform(-2, 2)) for w in words]
+                                mapping = None
+                            else:
+                                # number operators and products of two: commuting, and every encoding produces an identity term
+                                keys = [((p, 1), (p, 0)) for p in rng.sample(range(4), rng.randint(1, 3))]
+                                if rng.random() < 0.5:
+                                    keys.append(((3, 1), (3, 0), (1, 1), (1, 0)))
+                                terms = [(k, rng.uniform(-2, 2)) for k in keys]
+                                mapping = mappings[(combo + len(keys)) % 4]
+                            time = [rng.uniform(-2.5, 2.5) for _t in terms] if dict_time else rng.uniform(-2.5, 2.5)
+                            e, d = grid_case(kind, terms, time, n, order, control, mapping)
+                            cs = ctrl_list(control)
+                            cls = "ctrl%d%s" % (len(cs), "-with-qubit0" if 0 in cs else "")
+                            ck.case("evolution-grid", repr((kind, terms, time, n, order, control, mapping)), nontrivial=True,
+                                    sample={"kind": kind, "terms": repr(terms), "time": time, "n": n, "order": order, "control": control, "mapping": mapping,
+                                            "raised": repr(e) if e is not None else None, "deviation": d},
+                                    tags=[kind, "dict" if dict_time else "scalar", "n%d" % n, "order%d" % order, cls] + ([mapping] if mapping else []))
+                            rep = {"kind": "grid", "op_kind": kind, "terms": terms, "time": time, "n": n, "order": order, "control": control, "mapping": mapping}
+                            if e is not None:
+                                if kind == "qubit" and isinstance(e, ValueError) and len(cs) >= 2 and 0 in cs:
+                                    ck.violation(KNOWN_SIG, "trotterize(operator with identity term, control=%s) raises ValueError: %s" % (control, e), rep)
+                                else:
+                                    ck.violation("C06/evolution-grid/%s/raises-%s" % (kind, type(e).__name__),
+                                                 "trotterize(%s %s, time=%s, n=%d, order=%d, control=%s, mapping=%s) raises %s: %s"
+                                                 % (kind, terms, time, n, order, control, mapping, type(e).__name__, e), rep)
+                            elif d > TOL * 10:
+                                ck.violation("C06/evolution-grid/%s/%s/%s" % (kind, "time-dict" if dict_time else "scalar-time", cls),
+                                             "trotterize(%s %s, time=%s, n_trotter_steps=%d, order=%d, control=%s, mapping=%s): ||circuit*phase - ctrl(exp(-i sum t_k c_k H_k))|| = %.3g "
+                                             "(commuting terms: must be exact)" % (kind, terms, time, n, order, control, mapping, d), rep)
+
+
 # ------------------------------------------------------------------------------------------ exp_pauliword_to_gates
 def control_modes(nq):
     return [None, nq, [nq], [nq, nq + 1]]
@@ -348,12 +478,13 @@ def stream_exp_word(ck, pre):
               "threshold scale) x controls none/int/[q]/[q,q'], + random unsorted / gapped words, + malformed (control inside the word, empty "
               "word); implementation's gate strings vs model (exact rationals); non-trivial = >= 2 factors incl. X or Y and c != 0" % (3 if quick else 4))
     cases = []
-    coefs = [Fraction(k) for k in ((-5, 3, 7) if quick else (-37, -5, -1, 1, 3, 7, 12, 21, 45))] + EDGE_C
+    coefs = [Fraction(k) for k in ((-5, 7) if quick else (-37, -5, -1, 1, 3, 7, 12, 21, 45))] + (EDGE_C[:7] if quick else EDGE_C)
     for w in all_words(3 if quick else 4):
         nq = max(q for q, _ in w) + 1
         for c in coefs:
             for control in control_modes(nq):
                 cases.append((w, c, bool(len(w) % 2), control))
+    n_valid = [0]
     for _ in range(150 if quick else 2500):
         nq = rng.randint(1, 6)
         w = rand_word(rng, nq, sort=rng.random() < 0.5)
@@ -361,6 +492,7 @@ def stream_exp_word(ck, pre):
         m = rng.choice([0, 1, 1, 2, 3])
         control = None if m == 0 else (rng.choice(free) if (m == 1 and rng.random() < 0.5) else rng.sample(free, m))
         cases.append((w, rand_coef(rng), rng.random() < 0.5, control))
+    n_valid[0] = len(cases)
     # malformed
     for _ in range(20 if quick else 200):
         w = rand_word(rng, 3)
@@ -376,8 +508,11 @@ def stream_exp_word(ck, pre):
     exact_exprs, exact_cases = [], []
     n_exact = 50 if quick else 260
     n5 = [0]
-    for (w, c, var, control) in cases:
+    for ci, (w, c, var, control) in enumerate(cases):
         gates, e = run_exp_word(w, float(c) * PI16, var, control)
+        if e is not None and ci < n_valid[0]:
+            ck.violation("C06/exp_pauliword_to_gates/raises-%s" % type(e).__name__, "exp_pauliword_to_gates(%s, %s*pi/16, control=%s) raises %s: %s"
+                         % (w, c, control, type(e).__name__, e), {"kind": "exp_word", "word": w, "coef": float(c) * PI16, "control": control})
         if e is not None:
             s, ok = err_name(e), True
         else:
@@ -405,6 +540,7 @@ def stream_exp_word(ck, pre):
                 exact_exprs.append("check_exp %d %s %s (%d)%%Z [%s]" % (n, coq_list([LC.coq_gate(s_) for s_ in specs]), coq_word(w), int(c),
                                                                       "; ".join("%d%%N" % q for q in cs)))
                 exact_cases.append((w, c, control))
+    exact_validation(ck, exact_exprs, exact_cases)
     model = ck.coq_eval("expword", pre, exprs, shard=400, jobs=3)
     for ((w, c, var, control), a), b in zip(impl, model):
         if a != b and not (a.startswith("Ok ") and b.startswith("Ok ") and same_gates(a[3:], b[3:])):
@@ -414,9 +550,18 @@ def stream_exp_word(ck, pre):
                          "model and implementation differ for word %s, c=%s*pi/16, control=%s: impl=%s | model=%s%s"
                          % (w, c, control, a[:300], b[:300], "; numpy oracle deviation %.3g" % found if found is not None else ""),
                          {"kind": "exp_word", "word": w, "coef": float(c) * PI16, "control": control}, found_input=bool(found is not None and found > TOL))
+
+
+PRE_EXACT = ("From Coq Require Import String ZArith NArith List Bool.\n"
+             "From Tangelo Require Import Pauli.Word Linq.GateModel Linq.LinqZ Chem.PauliExp Chem.PauliExpQ Chem.PauliExpCyc.\n"
+             "Import ListNotations.\nOpen Scope string_scope.\n")
+
+
+def exact_validation(ck, exact_exprs, exact_cases):
+    """Implementation-only: needs the proved interpreter and the closed form, neither the tables nor the model."""
     ck.stream("exp-word-exact", "the implementation's gate list interpreted by the proved interpreter and compared exactly in Q(zeta_32) with "
               "ctrl cs (cos c I - i sin c P) on every basis state (E = equal)")
-    vals = ck.coq_eval("expexact", pre, exact_exprs, shard=40, jobs=3, timeout=1500)
+    vals = ck.coq_eval("expexact", PRE_EXACT, exact_exprs, shard=40, jobs=3, timeout=1500)
     for (w, c, control), v in zip(exact_cases, vals):
         ck.case("exp-word-exact", json.dumps([w, str(c), control]), nontrivial=len(w) >= 2 and c != 0,
                 sample={"word": w, "coef_pi16": str(c), "control": control, "verdict": v}, tags=[v])
@@ -634,7 +779,7 @@ def stream_oracle(ck):
     ck.stream("oracle-commuting", "random COMMUTING operators (real coefficients in [-2,2], identity term allowed), real time in [-3,3] or per-term dictionary, "
               "orders 1, 2, 4, n_trotter_steps 1-4, control none/one/several (not containing qubit 0 when an identity term is present): "
               "||U*phase - ctrl(expm(-itH))||_2 <= 1e-9")
-    for _ in range(90 if quick else 800):
+    for _ in range(70 if quick else 800):
         nq = rng.randint(1, 4)
         terms = rand_terms(rng, nq, commuting=True, real=True)
         if not terms:
@@ -660,7 +805,7 @@ def stream_oracle(ck):
     ck.stream("oracle-noncommuting", "random operators with non-commuting terms, |t| <= 1.5: deviation <= first-order bound n (t/n)^2/2 sum_{j<k} ||[H_j,H_k]|| (order 1) / "
               "second-order bound n (t/n)^3 (1/12 sum ||[R_j,[R_j,H_j]]|| + 1/24 sum ||[H_j,[H_j,R_j]]||), R_j = sum_{k>j} H_k (order 2): NUMERICAL support only; "
               "orders 4, 6: the deviation with 4 steps is below the deviation with 1 step")
-    for _ in range(90 if quick else 800):
+    for _ in range(70 if quick else 800):
         nq = rng.randint(2, 4)
         terms = [t for t in rand_terms(rng, nq, real=True, allow_identity=False)]
         if len(terms) < 2 or all(commute_words(a, b) for (a, _), (b, _) in itertools.combinations(terms, 2)):
@@ -668,6 +813,12 @@ def stream_oracle(ck):
         order = rng.choice([1, 2, 2, 4, 6])
         t = rng.uniform(-1.5, 1.5)
         control = None if rng.random() < 0.7 else [nq + 1]
+        try:
+            evolve_deviation(terms, t, 1, order, control)
+        except Exception as e:
+            ck.violation("C06/trotterize/raises-%s" % type(e).__name__, "trotterize raises %s: %s (terms=%s, t=%r, order=%d, control=%s)" % (type(e).__name__, e, terms, t, order, control),
+                         {"kind": "oracle", "terms": terms, "time": t, "n": 1, "order": order, "control": control})
+            continue
         if order <= 2:
             n = rng.randint(1, 4)
             d, mats = evolve_deviation(terms, t, n, order, control)
@@ -775,6 +926,14 @@ def replay(data):
         e, d = identity_multictrl_case(r["control"])
         print("control", r["control"], "raised" if e is not None else "ok", repr(e), d)
         return 1 if (e is not None or d > TOL) else 0
+    if k == "grid":
+        if r["op_kind"] == "qubit":
+            terms = [([tuple(x) for x in w], c) for w, c in r["terms"]]
+        else:
+            terms = [(tuple(tuple(x) for x in ft), c) for ft, c in r["terms"]]
+        e, d = grid_case(r["op_kind"], terms, r["time"], r["n"], r["order"], r["control"], r.get("mapping"))
+        print("raised" if e is not None else "ok", repr(e), "deviation", d)
+        return 1 if (e is not None or d > TOL * 10) else 0
     if k == "exp_word":
         w = [tuple(x) for x in r["word"]]
         d = oracle_exp_word(w, r["coef"], r["control"])
